@@ -135,6 +135,15 @@ var T0 = time.Date(2001, 2, 3, 4, 5, 6, 0, time.UTC)
 var FracOf = map[string]time.Duration{"frac": 750 * time.Millisecond, "frac/f75.txt": 750 * time.Millisecond, "frac/f25.txt": 250 * time.Millisecond,
 	"frac/f999.txt": 999999999 * time.Nanosecond, "frac/f5.txt": 500 * time.Millisecond, "frac/sub": 600 * time.Millisecond, "frac/sub/g.txt": 900 * time.Millisecond, "frac/l": 800 * time.Millisecond}
 
+// TimeOf gives the on-disk mtime of the fixture nodes whose time lies outside the usual years: before the epoch,
+// exactly the epoch, beyond 2^31 and beyond 2^32 seconds.
+var TimeOf = map[string]time.Time{
+	"epochs/y1960.txt": time.Date(1960, 1, 2, 3, 4, 5, 0, time.UTC),
+	"epochs/y1970.txt": time.Unix(0, 0).UTC(),
+	"epochs/y2040.txt": time.Date(2040, 1, 2, 3, 4, 5, 0, time.UTC),
+	"epochs/y2110.txt": time.Date(2110, 1, 2, 3, 4, 5, 0, time.UTC),
+}
+
 // BoundarySizes are the sizes of the sizes/s<N>.bin fixture files.
 var BoundarySizes = []int{511, 512, 513, 4095, 4096, 4097, 32767, 32768, 32769, 65535, 65536, 65537, 1<<20 - 1, 1 << 20, 1<<20 + 1}
 
@@ -306,6 +315,10 @@ func Spec(big int) []Node {
 	ns = append(ns, Node{Rel: LongSrcDir, Kind: "dir", Mode: 0o755})
 	ns = append(ns, Node{Rel: LongSrcDir + "/payload.bin", Kind: "file", Mode: 0o644, Data: Noise(3000, 4242)})
 	ns = append(ns, Node{Rel: LongSrcDir + "/settings.conf", Kind: "file", Mode: 0o640, Data: text("long source settings", 60)})
+	ns = append(ns, Node{Rel: "epochs", Kind: "dir", Mode: 0o755})
+	for _, n := range []string{"epochs/y1960.txt", "epochs/y1970.txt", "epochs/y2040.txt", "epochs/y2110.txt"} {
+		ns = append(ns, Node{Rel: n, Kind: "file", Mode: 0o644, Data: text(n, 30)})
+	}
 	ns = append(ns, Node{Rel: "samename", Kind: "dir", Mode: 0o755})
 	for _, a := range []string{"amd64", "arm64", "riscv64"} {
 		ns = append(ns, Node{Rel: "samename/" + a, Kind: "dir", Mode: 0o755})
@@ -317,6 +330,9 @@ func Spec(big int) []Node {
 	ns = append(ns, Node{Rel: "huge/zeros.bin", Kind: "file", Mode: 0o644, Data: make([]byte, 12<<20)})
 	for i := range ns {
 		ns[i].MTime = mt(i + 1).Add(FracOf[ns[i].Rel])
+		if t, ok := TimeOf[ns[i].Rel]; ok {
+			ns[i].MTime = t
+		}
 		if i >= firstMany {
 			// minutes apart: thousands of nodes stay within the years of the others
 			ns[i].MTime = mt(firstMany + 1).Add(time.Duration(i-firstMany) * 61 * time.Second)
